@@ -509,6 +509,12 @@ def header_cases(ctx, n):
             h = h + "::" + rng.choice(LANG_WORDS) + "::" + rng.choice(LANG_WORDS)
         elif k < 0.55:
             h = h + ":" + rng.choice(LANG_WORDS)
+        elif k < 0.75:
+            # phase 8: the single-colon branch, with `jr` tokens in every position (last position: IndexError)
+            toks = [rng.choice(HEADER_WORDS + ["jr", "jr", " jr ", "bind", "media"])]
+            for _ in range(rng.choice([0, 1, 1, 2, 3])):
+                toks.append(rng.choice(LANG_WORDS + ["jr", "jr", " jr", "constraintMsg", "count", "JR", "jr "]))
+            h = rng.choice([":", ":", " : "]).join(toks)
         use_dc = "::" in h or rng.random() < 0.5
         sheet = rng.choice(["survey", "choices"])
         try:
@@ -517,6 +523,10 @@ def header_cases(ctx, n):
             impl = ["<exception>", type(e).__name__]
         mo = ctx.driver.call("warn.header", header=h, use_dc=use_dc, sheet=sheet)
         ctx.count("header:cases")
+        if ":" in h.replace("::", "") and not use_dc:
+            ctx.count("header:single_colon")
+        if impl[:1] == ["<exception>"]:
+            ctx.count("header:impl_raises_" + impl[1])
         if mo is None:
             ctx.count("header:unsupported")
         elif impl != mo:
